@@ -3,8 +3,18 @@
  * Spinlock and wait-list by contract (ghost lockset + clock). */
 #include "vf.h"
 #include "abti.h"
-#include "env/spinlock.h"
 ABTI_eventual *vf_ev; /* ghost: the eventual under test */
+/* lock-invariant rule for the plain field `ready` (protected by the eventual's lock): other threads may change it
+ * until the lock is taken (acquire havocs it and snapshots what is found), and what the caller leaves at the release
+ * is snapshotted again -- a store made before the acquire is lost, a store made after the release shows up as a
+ * difference to the release snapshot. */
+ABT_bool vf_ready_at_acq, vf_ready_at_rel;
+#define VF_LOCK_HAVOC vf_ev->ready
+#define VF_LOCK_GHOST vf_ready_at_acq
+#define VF_LOCK_POST ((vf_ev->ready == ABT_TRUE || vf_ev->ready == ABT_FALSE) && vf_ready_at_acq == vf_ev->ready)
+#define VF_LOCK_REL_GHOST vf_ready_at_rel
+#define VF_LOCK_REL_POST (vf_ready_at_rel == vf_ev->ready)
+#include "env/spinlock.h"
 /* broadcast may only be issued once the eventual is ready (value complete) */
 #define VF_WL_BCAST_PRE (vf_ev->ready == ABT_TRUE)
 /* a waiter is enqueued only when the eventual was seen not ready */
@@ -40,6 +50,7 @@ void h_eventual_set(void)
     unsigned b0 = vf_wl_bcasts, a0 = vf_acquires, r0 = vf_releases;
     int r = ABT_eventual_set((ABT_eventual)&ev, src, nbytes);
     VF_ASSERT(vf_lock_held == 0, "lock not held on return");
+    if (nbytes >= 0 && (size_t)nbytes <= ev.nbytes) { ready0 = vf_ready_at_acq; VF_ASSERT(vf_acquires == a0 + 1, "the decision is made in one critical section"); VF_ASSERT(ev.ready == vf_ready_at_rel, "the ready flag is not written after the lock was released"); }
     if (nbytes < 0) {
         VF_ASSERT(r == ABT_ERR_INV_ARG, "negative size: ABT_ERR_INV_ARG");
     } else if ((size_t)nbytes > ev.nbytes) {
@@ -75,6 +86,7 @@ void h_eventual_wait(void)
     unsigned w0 = vf_wl_waits, r0 = vf_releases;
     lp_ABTI_local = NULL; /* external thread: the tasklet test is skipped */
     int r = ABT_eventual_wait((ABT_eventual)&ev, &val);
+    ready0 = vf_ready_at_acq; /* what was found under the lock */
     VF_ASSERT(r == ABT_SUCCESS && vf_lock_held == 0 && vf_releases == r0 + 1, "lock released exactly once");
     VF_ASSERT(vf_wl_waits == w0 + (ready0 == ABT_FALSE ? 1 : 0), "waits iff the eventual was seen not ready under the lock");
     VF_ASSERT(ev.ready == ABT_TRUE, "returns only once the eventual is ready");
@@ -91,6 +103,7 @@ void h_eventual_test(void)
     ABT_bool ready0 = ev.ready;
     unsigned a0 = vf_acquires, r0 = vf_releases;
     int r = ABT_eventual_test((ABT_eventual)&ev, &val, &flag);
+    ready0 = vf_ready_at_acq; /* what was found under the lock */
     VF_ASSERT(r == ABT_SUCCESS && vf_lock_held == 0 && vf_acquires == a0 + 1 && vf_releases == r0 + 1, "one critical section");
     VF_ASSERT(flag == ready0, "reports ready iff ready was observed under the lock");
     VF_ASSERT(ready0 ? val == ev.value : val == (void *)0x55, "value written only when ready");
@@ -104,6 +117,7 @@ void h_eventual_reset(void)
     setup();
     int r = ABT_eventual_reset((ABT_eventual)&ev);
     VF_ASSERT(r == ABT_SUCCESS && ev.ready == ABT_FALSE && vf_lock_held == 0, "reset: not ready, lock released");
+    VF_ASSERT(vf_ready_at_rel == ABT_FALSE && ev.ready == vf_ready_at_rel, "the flag is cleared inside the critical section: in place when the lock is released, not written afterwards (a reset cannot interleave with a set)");
     VF_ASSERT(ev.value == (ev.nbytes ? (void *)buf : NULL), "buffer pointer kept");
     VF_REACH("reset returns");
 }
